@@ -1,6 +1,7 @@
 import Gedcom.Model.Decoder
 import Gedcom.Generated.Tags
 import Gedcom.Model.Regex
+import Gedcom.Model.MultiLine
 import Gedcom.Generated.LineRegex
 import Driver.Util
 import Driver.Tree
@@ -52,6 +53,11 @@ def handleDecoder (cmd : String) (rest : List String) : Option String :=
     -- legal <forest> : is the forest in the domain of C01.decode_encode (Dec.legalDocB)?
     match parseForest rest with
     | some (f, []) => some (b2s (legalDocB ⟨false, f⟩))
+    | _ => some "bad-op"
+  | "legalml" =>
+    -- legalml <forest> : hypothesis of C01.decode_encode_multiline / C02.normal_form_multiline
+    match parseForest rest with
+    | some (f, []) => some (b2s (legalMLDocB ⟨false, f⟩))
     | _ => some "bad-op"
   | "regex" =>
     -- regex <hex line> : the source's line pattern (translated on every run) through the
